@@ -1,6 +1,10 @@
 /-
   Bridge: `apply` of the built-in modifiers as translated from `/repo/src/input_context/input_modifier/*.rs`
-  = the model's value functions (`BEI/Model/Modifiers.lean`).
+  = the model's value functions (`BEI/Model/Modifiers.lean`): `Negate`, `DeadZone` (axial and radial, with the prelude's
+  `length` / `normalize_or_zero`), `DeltaLerp` (snap test with the constant read from the source, clamped factor, stored
+  previous output), `SwizzleAxis`, `Scale`, `DeltaScale`.  The three modifiers that turn `Bool` into `Axis1D` by calling
+  themselves are translated with fuel; the theorems show that fuel 2 suffices for every input (the recursion of the source
+  terminates after one step).  `ExponentialCurve` (`powf`) is not translated.
 -/
 import BEI.Gen.Code.Modifiers
 import BEI.Model.Modifiers
@@ -8,20 +12,133 @@ import BEI.Bridge.Value
 namespace BEI.Bridge
 open BEI.Rs
 
+macro "mod_bridge" : tactic => `(tactic| (
+  first
+  | done
+  | (simp [rs_modifiers, RInto.into, ActionValue.toModel, ActionValue.ofModel, boolToRat, Tick.delta_secs, Vec3.xy, Vec2.Y, Vec3.Z,
+      Vec2.yx, Vec3.yxz, Vec3.zyx, Vec3.xzy, Vec3.yzx, Vec3.zxy, Rat.fabs, Rat.fmax, Rat.fmin, Rat.fsignum] <;>
+     (try (first | rfl | congr)))))
+
+theorem negate_apply (m : Negate) (v : ActionValue) (n : Nat) :
+    Negate.applyF (n + 2) m v = some (m, ActionValue.ofModel (Mod.negateV m.x m.y m.z v.toModel)) := by
+  obtain ⟨mx, my, mz⟩ := m
+  cases v with
+  | vBool b => cases b <;> cases mx <;> simp [rs_modifiers, RInto.into, ActionValue.toModel, ActionValue.ofModel, Mod.negateV, boolToRat]
+  | vAxis1D x => cases mx <;> simp [rs_modifiers, RInto.into, ActionValue.toModel, ActionValue.ofModel, Mod.negateV]
+  | vAxis2D p => cases mx <;> cases my <;> simp [rs_modifiers, RInto.into, ActionValue.toModel, ActionValue.ofModel, Mod.negateV]
+  | vAxis3D p => cases mx <;> cases my <;> cases mz <;> simp [rs_modifiers, RInto.into, ActionValue.toModel, ActionValue.ofModel, Mod.negateV]
+
+def swzM : SwizzleAxis → Mod.Swz
+  | .YXZ => .yxz | .ZYX => .zyx | .XZY => .xzy | .YZX => .yzx | .ZXY => .zxy
+
+theorem swizzle_apply (m : SwizzleAxis) (v : ActionValue) (n : Nat) :
+    SwizzleAxis.applyF (n + 2) m v = some (m, ActionValue.ofModel (Mod.swizzleV (swzM m) v.toModel)) := by
+  cases v with
+  | vBool b => cases b <;> cases m <;> simp [Mod.swizzleV, Mod.swizzleV.swizzle1, swzM, ActionValue.ofModel] <;> mod_bridge
+  | vAxis1D x => cases m <;> simp [Mod.swizzleV, Mod.swizzleV.swizzle1, swzM, ActionValue.ofModel] <;> mod_bridge
+  | vAxis2D p => cases m <;> simp [Mod.swizzleV, swzM, ActionValue.ofModel] <;> mod_bridge
+  | vAxis3D p => cases m <;> simp [Mod.swizzleV, swzM, ActionValue.ofModel] <;> mod_bridge
+
+theorem deadZone_dead_zone (m : DeadZone) (x : Rat) :
+    m.dead_zone x = deadZone1 m.lower_threshold m.upper_threshold x := by
+  simp [rs_modifiers, deadZone1, Rat.fabs, Rat.fmax, Rat.fmin, Rat.fsignum]
+
+theorem deadZone_apply_axial (m : DeadZone) (v : ActionValue) (h : m.kind = .Axial) :
+    (m.apply v).2.toModel = Mod.deadZoneAxialV m.lower_threshold m.upper_threshold v.toModel ∧ (m.apply v).1 = m := by
+  have hd := deadZone_dead_zone m
+  cases v with
+  | vBool b => cases b <;> simp [DeadZone.apply, hd, RInto.into, ActionValue.toModel, Mod.deadZoneAxialV, boolToRat]
+  | vAxis1D x => simp [DeadZone.apply, hd, RInto.into, ActionValue.toModel, Mod.deadZoneAxialV]
+  | vAxis2D p => simp [DeadZone.apply, h, hd, RInto.into, ActionValue.toModel, Mod.deadZoneAxialV]
+  | vAxis3D p => simp [DeadZone.apply, h, hd, RInto.into, ActionValue.toModel, Mod.deadZoneAxialV]
+
+theorem deadZone_apply_radial (m : DeadZone) (v : ActionValue) (h : m.kind = .Radial) :
+    (m.apply v).2.toModel = Mod.deadZoneRadialV V3.len m.lower_threshold m.upper_threshold v.toModel ∧ (m.apply v).1 = m := by
+  have hd := deadZone_dead_zone m
+  cases v with
+  | vBool b => cases b <;> simp [DeadZone.apply, hd, RInto.into, ActionValue.toModel, Mod.deadZoneRadialV, boolToRat]
+  | vAxis1D x => simp [DeadZone.apply, hd, RInto.into, ActionValue.toModel, Mod.deadZoneRadialV]
+  | vAxis2D p =>
+    simp only [DeadZone.apply, h, hd, RInto.into, ActionValue.toModel, Mod.deadZoneRadialV, deadZoneRadial,
+      Vec2.normalize_or_zero, Vec2.length]
+    split <;> simp_all [Vec2.ZERO, V3.zero, V3.scale]
+  | vAxis3D p =>
+    simp only [DeadZone.apply, h, hd, RInto.into, ActionValue.toModel, Mod.deadZoneRadialV, deadZoneRadial,
+      Vec3.normalize_or_zero, Vec3.length]
+    split <;> simp_all [Vec3.ZERO, V3.zero, V3.scale]
+
+/-- the model's memory of a translated `DeltaLerp` -/
+def dlerpM (m : DeltaLerp) : V3 := m.prev_value.toModel
+
+theorem deltaLerp_apply (m : DeltaLerp) (t : Tick) (v : ActionValue) (n : Nat) :
+    ∃ r, DeltaLerp.applyF (n + 2) m t v = some r
+      ∧ dlerpM r.1 = (Mod.deltaLerpStep m.speed (dlerpM m) t v.toModel).1
+      ∧ r.2.toModel = (Mod.deltaLerpStep m.speed (dlerpM m) t v.toModel).2
+      ∧ r.1.speed = m.speed := by
+  have key : ∀ (w : ActionValue) (k : Nat), (∀ b, w ≠ .vBool b) →
+      ∃ r, DeltaLerp.applyF (k + 1) m t w = some r
+        ∧ dlerpM r.1 = (Mod.deltaLerpStep m.speed (dlerpM m) t w.toModel).1
+        ∧ r.2.toModel = (Mod.deltaLerpStep m.speed (dlerpM m) t w.toModel).2
+        ∧ r.1.speed = m.speed := by
+    intro w k hw
+    have h3 := value_as_axis3d w
+    have hp : w.toModel.promote = w.toModel := by
+      cases w with
+      | vBool b => exact absurd rfl (hw b)
+      | vAxis1D x => rfl
+      | vAxis2D p => rfl
+      | vAxis3D p => rfl
+    have hrun : DeltaLerp.applyF (k + 1) m t w =
+        (if rlt (m.prev_value.distance_squared w.as_axis3d) Gen.dlerpSnapEps then
+          some ({ m with prev_value := w.as_axis3d }, w)
+        else
+          some ({ m with prev_value := m.prev_value.lerp w.as_axis3d ((t.delta_secs * m.speed).fmin 1) },
+                (ActionValue.vAxis3D (m.prev_value.lerp w.as_axis3d ((t.delta_secs * m.speed).fmin 1))).convert w.dim)) := by
+      cases w with
+      | vBool b => exact absurd rfl (hw b)
+      | vAxis1D x => rfl
+      | vAxis2D p => rfl
+      | vAxis3D p => rfl
+    have hx : ∀ (p : Vec3), (ActionValue.vAxis3D p).toModel = Value.a3 p.x p.y p.z := fun _ => rfl
+    rw [hrun]
+    unfold Mod.deltaLerpStep
+    simp only [hp, ← h3, rlt_rat, ltQ, Vec3.distance_squared, dlerpM, Tick.delta_secs, Rat.fmin]
+    by_cases hc : (V3.sub m.prev_value.toModel w.as_axis3d.toModel).normSq < Gen.dlerpSnapEps
+    · have hd : decide ((V3.sub m.prev_value.toModel w.as_axis3d.toModel).normSq < Gen.dlerpSnapEps) = true := decide_eq_true hc
+      simp only [hd, if_pos hc, ↓reduceIte]
+      exact ⟨_, rfl, rfl, rfl, rfl⟩
+    · have hd : decide ((V3.sub m.prev_value.toModel w.as_axis3d.toModel).normSq < Gen.dlerpSnapEps) = false := decide_eq_false hc
+      simp only [hd, if_neg hc, Bool.false_eq_true, ↓reduceIte]
+      refine ⟨_, rfl, ?_, ?_, rfl⟩
+      · simp [Vec3.lerp, Mod.lerp3, Vec3.toModel, V3.scale]
+        rfl
+      · simp [value_convert, value_dim, Value.ofV3, hx, Vec3.lerp, Mod.lerp3, Vec3.toModel, V3.scale]
+        rfl
+  cases v with
+  | vBool b =>
+    have hstep : DeltaLerp.applyF (n + 2) m t (.vBool b) = DeltaLerp.applyF (n + 1) m t (.vAxis1D (if b then 1 else 0)) := by
+      cases b <;> rfl
+    rw [hstep]
+    have := key (.vAxis1D (if b then 1 else 0)) n (by intro b' h; cases h)
+    cases b <;> exact this
+  | vAxis1D x => exact key _ (n + 1) (by intro b' h; cases h)
+  | vAxis2D p => exact key _ (n + 1) (by intro b' h; cases h)
+  | vAxis3D p => exact key _ (n + 1) (by intro b' h; cases h)
+
 theorem scale_apply (m : Scale) (v : ActionValue) :
     (m.apply v).2.toModel = Mod.scaleV m.factor.x m.factor.y m.factor.z v.toModel ∧ (m.apply v).1 = m := by
   cases v with
-  | vBool b => cases b <;> simp [rs_modifiers, Mod.scaleV, RInto.into, ActionValue.toModel, boolToRat]
-  | vAxis1D x => simp [rs_modifiers, Mod.scaleV, RInto.into, ActionValue.toModel]
-  | vAxis2D p => simp [rs_modifiers, Mod.scaleV, RInto.into, ActionValue.toModel, Vec3.xy]
-  | vAxis3D p => simp [rs_modifiers, Mod.scaleV, RInto.into, ActionValue.toModel]
+  | vBool b => cases b <;> simp [Mod.scaleV] <;> mod_bridge
+  | vAxis1D x => simp [Mod.scaleV] <;> mod_bridge
+  | vAxis2D p => simp [Mod.scaleV] <;> mod_bridge
+  | vAxis3D p => simp [Mod.scaleV] <;> mod_bridge
 
 theorem deltaScale_apply (m : DeltaScale) (t : Tick) (v : ActionValue) :
     (m.apply t v).2.toModel = Mod.deltaScaleV t.delta v.toModel := by
   cases v with
-  | vBool b => cases b <;> simp [rs_modifiers, Mod.deltaScaleV, RInto.into, ActionValue.toModel, boolToRat, Tick.delta_secs]
-  | vAxis1D x => simp [rs_modifiers, Mod.deltaScaleV, RInto.into, ActionValue.toModel, Tick.delta_secs]
-  | vAxis2D p => simp [rs_modifiers, Mod.deltaScaleV, RInto.into, ActionValue.toModel, Tick.delta_secs]
-  | vAxis3D p => simp [rs_modifiers, Mod.deltaScaleV, RInto.into, ActionValue.toModel, Tick.delta_secs]
+  | vBool b => cases b <;> simp [Mod.deltaScaleV] <;> mod_bridge
+  | vAxis1D x => simp [Mod.deltaScaleV] <;> mod_bridge
+  | vAxis2D p => simp [Mod.deltaScaleV] <;> mod_bridge
+  | vAxis3D p => simp [Mod.deltaScaleV] <;> mod_bridge
 
 end BEI.Bridge
